@@ -61,5 +61,26 @@ Definition known_quote (c : case) : bool :=
   || (* a quote of the other kind inside a string makes rsass print it escaped or re-quoted *)
      false.
 
+(* known class: an identifier with a hex escape for a Latin-1 symbol that is not a letter
+   (U+00A1..U+00BF without the letters ª µ º, and × ÷): rsass prints the character raw,
+   the plain-CSS reader accepts only alphanumeric characters in an unquoted token *)
+Definition hexval (c : N) : option N :=
+  if is_ascii_digit c then Some (c - 48)
+  else if (97 <=? c) && (c <=? 102) then Some (c - 87)
+  else if (65 <=? c) && (c <=? 70) then Some (c - 55) else None.
+Fixpoint read_hex (x : list N) (acc : N) (n : nat) : N :=
+  match n, x with
+  | S k, c :: r => match hexval c with Some d => read_hex r (acc * 16 + d) k | None => acc end
+  | _, _ => acc
+  end.
+Definition latin1_symbol (v : N) : bool :=
+  ((161 <=? v) && (v <=? 191) && negb ((v =? 170) || (v =? 181) || (v =? 186))) || (v =? 215) || (v =? 247).
+Fixpoint has_symbol_escape (x : list N) : bool :=
+  match x with
+  | 92 :: r => latin1_symbol (read_hex r 0 6) || has_symbol_escape r
+  | _ :: r => has_symbol_escape r
+  | [] => false
+  end.
+
 Definition run (c : case) : list N :=
-  [ corr c; b2n (clause_roundtrip c); b2n (known_quote c) ].
+  [ corr c; b2n (clause_roundtrip c); b2n (known_quote c); b2n (has_symbol_escape (c_src c)) ].
